@@ -125,7 +125,7 @@ pub fn render_doc(d: &Doc) -> (String, BTreeMap<String, usize>) {
             }
             lines.push(format!("# Document {}", d.path));
             lines.push("".into());
-            for t in &d.tests {
+            for (k, t) in d.tests.iter().enumerate() {
                 lines.push(format!("## {}", t.title));
                 lines.push("".into());
                 let c = cfg_flow(&t.cfg);
@@ -133,7 +133,8 @@ pub fn render_doc(d: &Doc) -> (String, BTreeMap<String, usize>) {
                 if c.is_empty() {
                     lines.push(format!("```scrut{}", tail));
                 } else {
-                    lines.push(format!("```scrut {{{}}}{}", c.join(", "), tail));
+                    let gap = if d.fence_wide_gap { if k % 2 == 0 { "  " } else { " \t" } } else { " " };
+                    lines.push(format!("```scrut{}{{{}}}{}", gap, c.join(", "), tail));
                 }
                 for (i, l) in t.expr.split('\n').enumerate() {
                     if i == 0 {
@@ -149,7 +150,7 @@ pub fn render_doc(d: &Doc) -> (String, BTreeMap<String, usize>) {
                 if let Some(c) = t.expected_code {
                     lines.push(format!("[{}]", c));
                 }
-                lines.push("```".into());
+                lines.push(if d.long_closing_fence { "````".into() } else { "```".into() });
                 lines.push("".into());
             }
         }
@@ -285,7 +286,15 @@ pub fn run_cli(sc: &Scenario, renderer: &str) -> Observation {
                 if let Some(pp) = link_dir.parent() {
                     let _ = std::fs::create_dir_all(pp);
                 }
-                if !link_dir.exists() {
+                if d.file_symlink {
+                    // the document itself is the link
+                    let _ = std::fs::create_dir_all(&link_dir);
+                    let _ = std::fs::write(&realp, &text);
+                    let _ = std::os::unix::fs::symlink(&realp, &p);
+                    info.dollar_line.extend(at);
+                    info.doc_path.insert(d.path.clone(), if sc.cli.relative_paths { d.path.clone() } else { p.to_string_lossy().into_owned() });
+                    continue;
+                } else if !link_dir.exists() {
                     let _ = std::os::unix::fs::symlink(&real_dir, &link_dir);
                 }
             }
